@@ -301,7 +301,7 @@ def _iter_partial_runs(bitmap: bytes, start_idx: int, length: int) -> Iterator[t
             length -= max_count
             start_idx = 0
         else:
-            for bit_idx in range(start_idx, min(length, 8)):
+            for bit_idx in range(start_idx, min(start_idx + length, 8)):
                 sector_type = (byte & (1 << bit_idx)) >> bit_idx
 
                 if sector_type == current_type:
@@ -312,6 +312,7 @@ def _iter_partial_runs(bitmap: bytes, start_idx: int, length: int) -> Iterator[t
                     current_count = 1
 
                 length -= 1
+            start_idx = 0
 
     if current_count:
         yield (current_type, current_count)
